@@ -35,6 +35,18 @@ pub uninterp spec fn sp_method_nat(pool: PoolRead, i: u16) -> MethodNameAndDesc;
 pub uninterp spec fn sp_constant_value(pool: PoolRead, i: u16) -> ConstantValue;
 pub uninterp spec fn sp_package(pool: PoolRead, i: u16) -> PackageName;
 pub open spec fn sp_class_opt(pool: PoolRead, i: u16) -> Option<ClassName> { Some(sp_class(pool, i)) }
+pub uninterp spec fn sp_inner_flags(v: u16) -> InnerClassFlags;
+impl vstd::std_specs::convert::FromSpecImpl<u16> for InnerClassFlags {
+    open spec fn obeys_from_spec() -> bool { true }
+    open spec fn from_spec(v: u16) -> InnerClassFlags { sp_inner_flags(v) }
+}
+impl From<u16> for InnerClassFlags { #[verifier::external_body] fn from(v: u16) -> (r: InnerClassFlags) { unimplemented!() } }
+pub open spec fn inner_class_is(d: Seq<u8>, q: int, pool: PoolRead, e: InnerClass) -> bool {
+    e.inner_class == sp_class(pool, u16_at(d, q) as u16)
+    && e.outer_class == (if u16_at(d, q + 2) == 0 { None } else { Some(sp_class(pool, u16_at(d, q + 2) as u16)) })
+    && e.inner_name == (if u16_at(d, q + 4) == 0 { None } else { Some(sp_utf8(pool, u16_at(d, q + 4) as u16)) })
+    && e.flags == sp_inner_flags(u16_at(d, q + 6) as u16)
+}
 pub open spec fn sp_package_opt(pool: PoolRead, i: u16) -> Option<PackageName> { Some(sp_package(pool, i)) }
 pub uninterp spec fn sp_class_sig(s: JavaString) -> ClassSignature;
 pub uninterp spec fn sp_field_sig(s: JavaString) -> FieldSignature;
@@ -43,6 +55,10 @@ pub uninterp spec fn sp_string_of(b: Seq<u8>) -> JavaString;
 impl PoolRead {
     #[verifier::external_body] pub fn get_utf8(&self, index: u16) -> (res: Result<JavaString, VErr>) ensures res matches Ok(v) ==> v == sp_utf8(*self, index) { unimplemented!() }
     #[verifier::external_body] pub fn get_class(&self, index: u16) -> (res: Result<ClassName, VErr>) ensures res matches Ok(v) ==> v == sp_class(*self, index) { unimplemented!() }
+    #[verifier::external_body] pub fn get_optional_class(&self, index: u16) -> (res: Result<Option<ClassName>, VErr>)
+        ensures res matches Ok(v) ==> v == (if index == 0 { None } else { Some(sp_class(*self, index)) }) { unimplemented!() }
+    #[verifier::external_body] pub fn get_optional_utf8(&self, index: u16) -> (res: Result<Option<JavaString>, VErr>)
+        ensures res matches Ok(v) ==> v == (if index == 0 { None } else { Some(sp_utf8(*self, index)) }) { unimplemented!() }
     #[verifier::external_body] pub fn get_package(&self, index: u16) -> (res: Result<PackageName, VErr>) ensures res matches Ok(v) ==> v == sp_package(*self, index) { unimplemented!() }
     #[verifier::external_body] pub fn get_constant_value(&self, index: u16) -> (res: Result<ConstantValue, VErr>) ensures res matches Ok(v) ==> v == sp_constant_value(*self, index) { unimplemented!() }
     // `pool.get_optional(i, PoolRead::get_method_name_and_type)`: index 0 means "no entry"
@@ -97,6 +113,8 @@ VEC = {
     ('klass', 'PERMITTED_SUBCLASSES'): ('ClEv::PermittedSubclasses', 2, 2, 'sp_class_opt(*pool, u16_at(d, q) as u16) == Some(v[k])'),
     ('klass', 'MODULE_PACKAGES'): ('ClEv::ModulePackages', 2, 2, 'sp_package_opt(*pool, u16_at(d, q) as u16) == Some(v[k])'),
     ('method', 'EXCEPTIONS'): ('MEv::Exceptions', 2, 2, 'sp_class_opt(*pool, u16_at(d, q) as u16) == Some(v[k])'),
+    # JVMS 4.7.6: u2 inner_class_info_index, u2 outer_class_info_index (0: none), u2 inner_name_index (0: none), u2 inner_class_access_flags
+    ('klass', 'INNER_CLASSES'): ('ClEv::InnerClasses', 2, 8, 'inner_class_is(d, q, *pool, v[k])'),
 }
 FN_OF = dict(klass='read', field='read_field', method='read_method', component='read_record_component')
 VAR_OF = dict(klass='class_visitor', field='field_visitor', method='method_visitor', component='record_component_visitor')
@@ -179,11 +197,12 @@ def build(u):
     u.preamble('bytes.rs')
     u.preamble('rbytes.rs')
     add_classread(u, [], with_pos=False)
-    opaque(u, [t for t in RA.OPAQUE if t not in ('EnclosingMethod',)] + ['MethodNameAndDesc'])
+    opaque(u, [t for t in RA.OPAQUE if t not in ('EnclosingMethod', 'InnerClass')] + ['MethodNameAndDesc', 'InnerClassFlags'])
     u.raw(RA.COMMON)
     u.item(T + 'method/code.rs', 'struct', 'Label', derives=['Copy', 'Clone', 'PartialEq', 'Eq'])
     u.item(T + 'method/code.rs', 'struct', 'Lv', derives=[])
     u.item(T + 'class.rs', 'struct', 'EnclosingMethod', derives=[])
+    u.item(T + 'class.rs', 'struct', 'InnerClass', derives=[])
     ua_specs = dict(RA.UA_SPECS)
     ua_specs['read'] = ('res', ['res matches Ok(x) ==> x.src() == (Attribute { name: name, bytes: bytes })'])
     u.item(T + 'attribute.rs', 'struct', 'Attribute', derives=[]) if False else None
@@ -224,7 +243,7 @@ def build(u):
                 body = beta_read_vec(u, body)
                 idx = 'u16_at' if cw == 2 else 'u8_at'
                 n = f'{idx}({d0}, {p0})'
-                el = elem.replace('(d,', f'({d0},').replace(' q)', f' {p0} + {cw} + {ew} * k)')
+                el = re.sub(r'\bq\b', f'{p0} + {cw} + {ew} * k', elem.replace('(d,', f'({d0},'))
                 ens = [C(f'C01.arm.{lv}.{name}.delivers-one-event-with-exactly-the-listed-entries-in-order',
                          f'res matches Ok(x) ==> x.log().len() == visitor_in.log().len() + 1 && x.log().subrange(0, visitor_in.log().len() as int) == visitor_in.log() '
                          f'&& (x.log().last() matches {evc}(v) && v.len() == {n} && (forall|k: int| 0 <= k < v.len() ==> #[trigger] {el.replace("v[k]", "v[k]")}))'),
@@ -239,7 +258,8 @@ def build(u):
                  synth=dict(sig=f'pub fn {fn}<V: {trait}, Rd: ClassRead>(reader: &mut Rd, pool: &PoolRead, visitor_in: V, length: u32, attribute_name: &JavaString) -> Result<V>',
                             body='{ let mut ' + var + ' = visitor_in; ' + body + '; Ok(' + var + ') }', line=line),
                  requires=[f'0 <= {p0}'], **extra,
-                 opt_rewrites=[(r'pool\.get_optional\(([^,]+),\s*PoolRead::get_method_name_and_type\)', r'pool.get_optional_method_name_and_type(\1)')],
+                 opt_rewrites=[(r'pool\.get_optional\(([^,]+),\s*PoolRead::get_method_name_and_type\)', r'pool.get_optional_method_name_and_type(\1)'),
+                               (r'pool\.get_optional\(([^,]+),\s*PoolRead::get_class\)', r'pool.get_optional_class(\1)'), (r'pool\.get_optional\(([^,]+),\s*PoolRead::get_utf8\)', r'pool.get_optional_utf8(\1)')],
                  ensures=ens + [C(f'C01.arm.{lv}.{name if name != "_" else "unknown"}.data-untouched', f'final(reader).data() == {d0}')])
             first = False
     u.drop('interested attribute arms of read / read_field / read_method / read_record_component lifted to functions arm_<level>_<ATTRIBUTE>(reader, pool, visitor, length, attribute_name) '
